@@ -172,6 +172,14 @@ class C14(Check):
                                            {"path": names[a]["file"], "manifest": names[a]["idx"]}, {"path": "sub/" + names[b]["file"] if names[b]["file"] != "setup.py" else "setup.py", "manifest": names[b]["idx"]}],
                                  "enum_seeds": [None, None], "faults": "first", "fault_kind": fk, "fault_pick": 0,
                                  "sched": {"seed": 0, "policy": "fifo", "line_p": 0.0}})
+        # the chosen manifest cannot be READ any more when the writer comes to it (vanished, EIO, EACCES after discovery)
+        for a in plain:
+            for rk in ("vanish-before-read", "read-eio", "read-eacces"):
+                for nth in (1, 2):
+                    exps.append({"kind": "read-fault", "include": ["pixee:python/url-sandbox"],
+                                 "files": [{"path": "pkg/app.py", "snippets": [r["idx"]], "layout": {}}, {"path": names[a]["file"], "manifest": names[a]["idx"]}],
+                                 "enum_seeds": [None, None], "faults": "read-fault", "fault_kind": rk, "fault_nth": nth, "fault_pick": 0,
+                                 "sched": {"seed": 0, "policy": "fifo", "line_p": 0.0}})
         # several dependency-adding codemods in ONE run (same package twice, already declared package first, ...)
         seqs = [["pixee:python/url-sandbox", "pixee:python/sandbox-process-creation", "pixee:python/harden-pickle-load"],
                 ["pixee:python/url-sandbox", "pixee:python/use-defusedxml"],
@@ -216,9 +224,10 @@ class C14(Check):
                 continue
             used.add(p)
             files.append({"path": p, "manifest": m["idx"]})
-        faults = rng.choice(["none", "none", "none", "first", "all", "one-random"])
+        faults = rng.choice(["none", "none", "none", "first", "all", "one-random", "read-fault"])
+        fk = rng.choice(["open-eacces", "open-erofs"]) if faults != "read-fault" else rng.choice(["vanish-before-read", "read-eio", "read-eacces"])
         return {"kind": f"stores:{k}:{faults}", "include": [cid], "files": files, "enum_seeds": [rng.randrange(1000), rng.randrange(1000)],
-                "faults": faults, "fault_kind": rng.choice(["open-eacces", "open-erofs"]), "fault_pick": rng.randrange(8),
+                "faults": faults, "fault_kind": fk, "fault_nth": rng.choice([1, 2, 2, 3]), "fault_pick": rng.randrange(8),
                 "sched": G.rand_sched(rng, 2)}
 
     def execute(self, exp, ctx):
@@ -241,6 +250,11 @@ class C14(Check):
             if chosen:
                 plan = [{"op": "open-write", "path": "<T>/" + chosen[0], "kind": fk, "nth": 0}]
                 first = ctx.run(dict(base, name="run-faulted", world=world, enum_seed=exp["enum_seeds"][0], faults=plan))
+        if exp["faults"] == "read-fault" and manifests:
+            # the store the fault-free run chose (or any) stops being readable at its n-th read: 1 = discovery, 2 = the writer
+            chosen = [p for p in manifests if p in first["changed"]] or manifests
+            plan = [{"op": "open-read", "path": "<T>/" + chosen[exp["fault_pick"] % len(chosen)], "kind": fk, "nth": exp.get("fault_nth", 2)}]
+            first = ctx.run(dict(base, name="run-read-faulted", world=world, enum_seed=exp["enum_seeds"][0], faults=plan))
         files2 = W.apply_changes(world["files"], first["changed"])
         second = ctx.run(dict(base, name="rerun", world=dict(world, files=files2), enum_seed=exp["enum_seeds"][1], faults=[]))
         return {"first": first, "second": second, "manifests": manifests, "orig": world["files"], "plan": plan, "meta": meta["files"]}
@@ -310,6 +324,7 @@ class C14(Check):
                           and w["before"] != w["after"]})
         touched = sorted({m[1][4:] for m in first["mutations"] if m[1].startswith("<T>/") and m[1][4:] in manifests})
         faulted = {p["path"][4:] for p in outcomes["plan"]}
+        fk_ = exp.get("fault_kind")
         if len(written) > 1:
             add("more-than-one-manifest", "+".join(mname(p) for p in written), {"written": written})
         for p in written:
@@ -371,7 +386,7 @@ class C14(Check):
                     add("changeset-for-unwritten-manifest", mname(cs["path"]), {"path": cs["path"]})
         # a faulted manifest must stay byte-identical
         for p in faulted:
-            if p in first["changed"]:
+            if p in first["changed"] and not (fk_ == "vanish-before-read" and first["changed"][p] is None):
                 add("unwritable-manifest-changed", mname(p), {"path": p})
         return v
 
